@@ -159,17 +159,25 @@ fn block_on<F: std::future::Future>(f: F) -> F::Output {
 
 /// Persist what the node emitted the way the server does (segments via StreamingPersistence,
 /// WAL via WalRotator with a sync per entry, checkpoint of the snapshot at crash time).
-fn persist(p1: &Phase1, src: Sources) -> (VObjStore, VWalStore) {
+fn persist(p1: &Phase1, src: Sources, group: usize) -> (VObjStore, VWalStore) {
     let store = VObjStore::new();
     let wal = VWalStore::new();
     let cfgw = WriteBufferConfig { flush_interval: Duration::from_secs(3600), max_size_bytes: 1 << 20, max_deltas: 1000, backpressure_threshold_bytes: 1 << 24, compression_enabled: false };
     if src.segments || src.checkpoint {
         let mut p = block_on(StreamingPersistence::with_clock(Arc::new(store.clone()), PREFIX.to_string(), 1, cfgw, SimulatedClock::new(1_000))).expect("persistence");
-        for ds in &p1.emitted {
+        let n = p1.emitted.len();
+        for (i, ds) in p1.emitted.iter().enumerate() {
             for d in ds {
                 p.push(d.clone()).unwrap();
             }
-            block_on(p.flush()).expect("flush");
+            let flush_now = match group {
+                0 => true,
+                1 => i + 2 != n,
+                _ => i + 1 == n,
+            };
+            if flush_now {
+                block_on(p.flush()).expect("flush");
+            }
         }
     }
     if src.checkpoint {
@@ -227,13 +235,16 @@ struct Case {
     events: Vec<usize>,
     src: Option<Sources>, // None = no crash
     post: usize,
+    /// how the emitted deltas are grouped into segments: 0 = one flush per event, 1 = the last two
+    /// events share a segment, 2 = a single flush at the end
+    group: usize,
 }
 
 impl Case {
     fn json(&self) -> serde_json::Value {
         json!({"events": self.events.iter().map(|e| EVENTS[*e]).collect::<Vec<_>>(),
                "recover_from": self.src.map(|s| json!({"segments": s.segments, "checkpoint": s.checkpoint, "wal": s.wal})),
-               "post_restart_write": POST[self.post]})
+               "post_restart_write": POST[self.post], "segment_grouping": self.group})
     }
     fn src_label(&self) -> String {
         match self.src {
@@ -276,7 +287,7 @@ fn run_case(case: &Case) -> Result<String, (String, String)> {
                 }
                 Some(src) => {
                     drop(node);
-                    let (store, wal) = persist(&p1, src);
+                    let (store, wal) = persist(&p1, src, case.group);
                     let rec = recover(&store, &wal).map_err(|e| ("harness: recovery failed".to_string(), e))?;
                     let n2 = new_node();
                     // server start-up order: object store first, then WAL replay
@@ -347,6 +358,7 @@ fn main() {
             events: r["events"].as_array().unwrap().iter().map(|e| EVENTS.iter().position(|x| *x == e.as_str().unwrap()).unwrap()).collect(),
             src: if r["recover_from"].is_null() { None } else { Some(Sources { segments: r["recover_from"]["segments"].as_bool().unwrap(), checkpoint: r["recover_from"]["checkpoint"].as_bool().unwrap(), wal: r["recover_from"]["wal"].as_bool().unwrap() }) },
             post: POST.iter().position(|x| *x == r["post_restart_write"].as_str().unwrap()).unwrap(),
+            group: r["segment_grouping"].as_u64().unwrap_or(0) as usize,
         };
         match run_case(&case) {
             Ok(o) => {
@@ -388,7 +400,25 @@ fn main() {
     for s in &seqs {
         for src in &sources {
             for post in 0..POST.len() {
-                cases.push(Case { events: s.clone(), src: *src, post });
+                cases.push(Case { events: s.clone(), src: *src, post, group: 0 });
+            }
+        }
+    }
+    // segment grouping: several events' deltas in one segment (keys of different shards, i.e. of independent
+    // clocks, then share a segment, and recovery's segment order need not be the order of any one key's writes).
+    // Sequences of exactly 4 local events over {SET k a, SET k b, APPEND k x, INCR n, HSET h f v, HSET h f v g w i x}, recovered from
+    // sources that include segments, with the last two events in one segment or everything in one segment.
+    let local_core = [0usize, 1, 2, 5, 4, 13];
+    let mut l4: Vec<Vec<usize>> = vec![vec![]];
+    for _ in 0..4 {
+        l4 = l4.iter().flat_map(|s| local_core.iter().map(move |e| { let mut x = s.clone(); x.push(*e); x })).collect();
+    }
+    for s in &l4 {
+        for src in sources.iter().flatten().filter(|s| s.segments) {
+            for post in 0..POST.len() {
+                for group in [1usize, 2] {
+                    cases.push(Case { events: s.clone(), src: Some(*src), post, group });
+                }
             }
         }
     }
@@ -408,7 +438,7 @@ fn main() {
     let coverage = json!({
         "evaluations": n.load(Ordering::Relaxed),
         "distinct_nontrivial": checked,
-        "rule": "every sequence of <=3 events (thorough adds length 4 over 6 core events) over {8 local writes on a string key, a hash key (single- and three-field HSET, HDEL) and a counter; 7 remote deltas from replicas 2/3 with stamps small / equal to the local one / far ahead, incl. a remote delete and a remote hash} on a real ReplicatedShardedState, with a crash after the last event and recovery from each of the 7 non-empty subsets of {segments, checkpoint, WAL} (plus the no-crash variant), followed by each of 7 further writes; a case is non-trivial when the post-restart write produced a delta for a key the node had observed, so that all three oracles (stamp strictly greater; a peer holding the observed value serves the new one after merging; a second recovery serves the new one) were evaluated",
+        "rule": "every sequence of <=3 events (thorough adds length 4 over 6 core events) over {8 local writes on a string key, a hash key (single- and three-field HSET, HDEL) and a counter; 7 remote deltas from replicas 2/3 with stamps small / equal to the local one / far ahead, incl. a remote delete and a remote hash} on a real ReplicatedShardedState, with a crash after the last event and recovery from each of the 7 non-empty subsets of {segments, checkpoint, WAL} (plus the no-crash variant), followed by each of 7 further writes; plus every sequence of exactly 4 local events over 6 core events (incl. a three-field HSET, which advances the stamp by 3) with the emitted deltas grouped into segments so that the last two events (or all events) share a segment; a case is non-trivial when the post-restart write produced a delta for a key the node had observed, so that all three oracles (stamp strictly greater; a peer holding the observed value serves the new one after merging; a second recovery serves the new one) were evaluated",
         "event_sequences": seqs.len(),
         "recovery_source_sets": sources.len(),
         "cases": cases.len(),
